@@ -31,6 +31,7 @@ def main():
   ap.add_argument('--n', default='')
   ap.add_argument('--seed', default='')
   ap.add_argument('--demo', default='')
+  ap.add_argument('--base', default='c3922b2')
   args = ap.parse_args()
   d = tempfile.mkdtemp(prefix='lgc_try_', dir='/tmp')
   os.rmdir(d)
@@ -43,8 +44,15 @@ def main():
     if os.path.exists(args.patch):
       r = Sh('git -C %s apply %s' % (d, os.path.abspath(args.patch)))
       if r.returncode:
-        print('patch does not apply:', r.stderr)
-        return 2
+        # written against an earlier commit of /repo (before a later fix:
+        # commit touched the same lines): evaluate it on that commit
+        Sh('git -C /repo worktree remove --force %s' % d)
+        Sh('git -C /repo worktree add -q --detach %s %s' % (d, args.base))
+        r = Sh('git -C %s apply %s' % (d, os.path.abspath(args.patch)))
+        result['base'] = args.base
+        if r.returncode:
+          print('patch does not apply:', r.stderr)
+          return 2
     else:
       cat = json.load(open(os.path.join(VERIF, 'selftest', 'catalogue.json')))
       m = [x for x in cat if x['id'] == args.patch][0]
